@@ -63,7 +63,7 @@ ASSUMPTIONS = list(_c01.ASSUMPTIONS) + [
     'nothing and return internal containers (Counter, UnboundedSampler, '
     'FixedSizeSample) are not scribbled on',
     'merge_states: only the first state may be modified (docstring of Aggregatable)',
-    'adapters that exist for C01 input classes only (",inf" data, ",all-metrics" / macro / '
+    'adapters that exist for C01 input classes only (",all-metrics" / macro / '
     'binary-average configurations without vocabulary) are not iterated here '
     '(Adapter.checks); the merge laws on them are those of their sibling adapters',
     'reservoir_many: invariants only (size, membership, reviewed count, operand unchanged, '
